@@ -286,7 +286,7 @@ Section Total.
     { do 2 eexists. split; [reflexivity|]. unfold trans_post.
       split.
       { apply Inv_set_sigp; [eapply Inv_same; eauto|].
-        intros x Hx. cbn [sigp add_log] in Hx.
+        intros x Hx. unfold sig_join in Hx.
         destruct (sigp s1) as [[|y]|]; [inversion Hx| |inversion Hx; subst; exact Hmi].
         destruct (Nat.eqb y mi); inversion Hx; subst; exact Hmi. }
       rewrite (zc_same s1) by reflexivity. rewrite Hz1. cbn [nsteps set_sigp add_log]. rewrite Hn1. lia. }
